@@ -44,6 +44,8 @@ type projectSpec struct {
 	Name   string            `json:"name"`
 	Schema map[string]string `json:"schema"`
 	Config string            `json:"config"`
+	// bytes of comment lines written in front of a schema file's text (kept out of the replay)
+	Pad map[string]int `json:"comment_bytes_in_front,omitempty"`
 }
 
 func writeProject(dir string, p projectSpec) error {
@@ -56,6 +58,10 @@ func writeProject(dir string, p projectSpec) error {
 	_ = os.WriteFile(filepath.Join(dir, "go.sum"), sum, 0o644)
 	_ = os.WriteFile(filepath.Join(dir, "gqlgen.yml"), []byte(p.Config), 0o644)
 	for name, text := range p.Schema {
+		if n := p.Pad[name]; n > 0 {
+			line := "# " + strings.Repeat("documentation ", 8) + "\n"
+			text = strings.Repeat(line, n/len(line)+1) + text
+		}
 		f := filepath.Join(dir, name)
 		_ = os.MkdirAll(filepath.Dir(f), 0o755)
 		if err := os.WriteFile(f, []byte(text), 0o644); err != nil {
@@ -208,6 +214,15 @@ func Run(c *gen.Ctx) error {
 	// passes that walk the types before they are sorted: value-typed struct fields with asymmetric non-null cycles,
 	// interfaces with many implementors, unions with many members, many enums / inputs / directives
 	projects = append(projects, projectSpec{Name: "wide-value-cycles", Config: wideConfig, Schema: map[string]string{"wide.graphqls": wideSchema()}})
+	// a schema spread over files of very different sizes (a big documented catalogue next to a small extension file):
+	// the order of the sources, hence of the merged fields, must be the listed order whatever finishes loading first
+	projects = append(projects, projectSpec{Name: "skewed-schema-files", Config: strings.Replace(wideConfig, `"*.graphqls"`, `"graph/*.graphqls"`, 1),
+		Pad: map[string]int{"graph/a_catalog.graphqls": 3 << 20},
+		Schema: map[string]string{
+			"graph/a_catalog.graphqls": "type Product { id: ID! name: String! }\ntype Query { products: [Product!]! product(id: ID!): Product }\ntype Mutation { addProduct(name: String!): Product! }\n",
+			"graph/b_reviews.graphqls": "type Review { id: ID! stars: Int! }\nextend type Product { reviews: [Review!]! }\nextend type Query { reviews: [Review!]! }\nextend type Mutation { addReview(stars: Int!): Review! }\n",
+			"graph/c_users.graphqls":   "type User { id: ID! }\nextend type Query { me: User }\nextend type Review { by: User }\n",
+		}})
 	pr := r.Fork(1)
 	for i := 0; i < n; i++ {
 		s, _ := c17.Generate(pr)
@@ -347,7 +362,7 @@ func Run(c *gen.Ctx) error {
 	meta.Programs = len(projects)
 	meta.Evaluations = runs
 	meta.DistinctNontrivial = len(projects)
-	meta.Rule = "projects: one with two schema files of the same base name in different directories (follow-schema layout, names colliding after normalisation) + random projects from the C17 generator (schemas with colliding names x random options/layouts). Per project: generation in separate processes (fresh map seeds) on a clean tree from the project root with GOMAXPROCS=1; on an independent clean copy started from inside graph/ with GOMAXPROCS=16; then 2 (quick) or 4 (thorough) more times over the tree holding the previous output with GOMAXPROCS 2/16/1/4. SHA-256 of every written .go file must be identical across all runs. The emitted order of object marshalers and input unmarshalers per executor file is extracted and must be the sorted order. Fresh projects of the C19 generator (both resolver layouts) are regenerated with nothing edited: byte-identical files, and the resolver files of the second run are compared declaration by declaration with the model's run (Model.Regen) over the first run's output."
+	meta.Rule = "projects: one whose schema is three files of very different sizes (3 MB, then two small ones extending its types), one with two schema files of the same base name in different directories (follow-schema layout, names colliding after normalisation) + random projects from the C17 generator (schemas with colliding names x random options/layouts). Per project: generation in separate processes (fresh map seeds) on a clean tree from the project root with GOMAXPROCS=1; on an independent clean copy started from inside graph/ with GOMAXPROCS=16; then 2 (quick) or 4 (thorough) more times over the tree holding the previous output with GOMAXPROCS 2/16/1/4. SHA-256 of every written .go file must be identical across all runs. The emitted order of object marshalers and input unmarshalers per executor file is extracted and must be the sorted order. Fresh projects of the C19 generator (both resolver layouts) are regenerated with nothing edited: byte-identical files, and the resolver files of the second run are compared declaration by declaration with the model's run (Model.Regen) over the first run's output."
 	if len(descr) > 0 {
 		meta.Samples = append(meta.Samples, descr[0])
 	}
